@@ -41,7 +41,7 @@ def run(ctx):
                runner is not None and not R.model_bad,
                "%d disagreements; first: %s" % (len(R.model_bad), R.model_bad[0][1][:300]) if R.model_bad else "")
     unexplained = [v for v in R.spec_bad if v[3] is None]
-    ctx.oblige("search: the property's own statements hold on the real code for every generated configuration (outside open known-finding classes)",
+    ctx.oblige("search: the property's own statements hold on the real code for every generated configuration",
                not unexplained, "%d counterexamples; first: %s" % (len(unexplained), unexplained[0][1][:300]) if unexplained else "")
     for key, text, replay, kf in R.spec_bad:
         ctx.report(key, text, replay, kf_class=kf)
